@@ -26,6 +26,7 @@ const (
 	opHPUnknown
 	opHPForeign
 	opHPMessage
+	opRawWrite
 	numOps
 )
 
@@ -57,6 +58,19 @@ func stepBoth(s *Stream, r *refStream, tr *recTransport, sid uint64, step int) {
 			vrt.Assert(codeOf(err) == r.remoteCode, "send after remote error reports... (terminate error carries code)")
 		}
 		vrt.Cover("op-msgsend")
+	case opRawWrite:
+		data := vrt.BytesN("raw", 2)
+		err := s.RawWrite(drpcwire.KindMessage, data)
+		want := cNil
+		if r.send != 0 {
+			want = r.send
+		}
+		vrt.Assert(classify(err) == want, "RawWrite result equals reference")
+		if want == cNil {
+			// buffered, not flushed: make it visible so that the log comparison sees it
+			vrt.Assert(s.RawFlush() == nil, "RawFlush after RawWrite succeeds")
+			r.emit(drpcwire.KindMessage, false, data)
+		}
 	case opRawFlush:
 		err := s.RawFlush()
 		vrt.Assert(classify(err) == cNil, "RawFlush with nothing buffered is a no-op")
